@@ -467,7 +467,7 @@ pub fn run(ctx: &Ctx) {
     if known::active("F16") {
         ctx.known_finding("F16", "a v2+ file truncated right after the first newline of its footer (footer = a lone \\n) is accepted");
     }
-    let n = ctx.n(300_000, 6_000_000);
+    let n = ctx.n(300_000, 15_000_000);
     ctx.run_prop(&Accept, n);
     ctx.run_prop(&AcceptTz, n);
     ctx.run_prop(&Mutations, 3 * n);
